@@ -344,10 +344,10 @@ func execC09(c c09Case, x *verifkit.Ctx) *verifkit.Failure {
 			small = "/small-cache(<300)"
 		}
 		if res.hotRatio < c09ThetaHotRatio {
-			return verifkit.Failf("admission/hot-set-hit-ratio"+small, "hot-set hit ratio over the last 30%% of the trace is %.3f (< %.2f): MaxSize %d, hot set %d%% of the cache, %d%% reads, %s, mixed costs %v, pre-phase %d", res.hotRatio, c09ThetaHotRatio, c.MaxSize, c.HotPct, c.ReadPct, c.Kind, c.Mixed, c.Pre)
+			return verifkit.Failf(c09Sig("admission/hot-set-hit-ratio", small), "hot-set hit ratio over the last 30%% of the trace is %.3f (< %.2f): MaxSize %d, hot set %d%% of the cache, %d%% reads, %s, mixed costs %v, pre-phase %d", res.hotRatio, c09ThetaHotRatio, c.MaxSize, c.HotPct, c.ReadPct, c.Kind, c.Mixed, c.Pre)
 		}
 		if res.hotResident < c09ThetaHotResident {
-			return verifkit.Failf("admission/hot-set-not-retained"+small, "only %.1f%% of the hot keys are resident at the end (< %.0f%%): MaxSize %d, hot %d%%, reads %d%%, %s", 100*res.hotResident, 100*c09ThetaHotResident, c.MaxSize, c.HotPct, c.ReadPct, c.Kind)
+			return verifkit.Failf(c09Sig("admission/hot-set-not-retained", small), "only %.1f%% of the hot keys are resident at the end (< %.0f%%): MaxSize %d, hot %d%%, reads %d%%, %s", 100*res.hotResident, 100*c09ThetaHotResident, c.MaxSize, c.HotPct, c.ReadPct, c.Kind)
 		}
 		if 100-c.ReadPct >= 20 {
 			x.NonTrivial() // at least 8 x MaxSize one-off inserts
@@ -360,6 +360,15 @@ func execC09(c c09Case, x *verifkit.Ctx) *verifkit.Failure {
 		x.NonTrivial()
 	}
 	return nil
+}
+
+// on small caches the two hot-set assertions trip in no particular order from run to run:
+// they share one signature there (known finding C09-small-cache)
+func c09Sig(sig, small string) string {
+	if small != "" {
+		return "admission/hot-set" + small
+	}
+	return sig
 }
 
 var c09Mins = map[string]int64{}
